@@ -679,6 +679,26 @@ func (r *EngineRunner) Exec(f []string) (res string) {
 		}
 		r.ref.fold(r, got)
 		return fmt.Sprintf("ok %d %s", n, Md5Hex([]byte(sb.String()))) + r.takeEvents(false)
+	case "foldn": // E foldn <n>: Fold whose callback returns false at its n-th invocation
+		stop := atoi(f[2])
+		var sb strings.Builder
+		n := 0
+		want := r.ref.sortedKeys()
+		err := r.db.Fold(func(k, v []byte) bool {
+			if n < len(want) && (string(k) != want[n] || !bytes.Equal(v, r.ref.m[want[n]])) {
+				r.fail("C10", "Fold delivered %s=%s as item %d, the snapshot has %s there", Obs(k), Obs(v), n+1, Obs([]byte(want[n])))
+			}
+			sb.WriteString(Obs(k) + "=" + Obs(v) + ";")
+			n++
+			return n < stop
+		})
+		if err != nil {
+			return "err " + EngErr(err) + r.takeEvents(false)
+		}
+		if exp := min(max(stop, 1), len(want)); n != exp {
+			r.fail("C10", "a Fold stopped by its callback at item %d of %d delivered %d items", stop, len(want), n)
+		}
+		return fmt.Sprintf("ok %d %s", n, Md5Hex([]byte(sb.String()))) + r.takeEvents(false)
 	case "foldw": // E foldw <at> <w>... : Fold whose callback, at its invocation number <at>, writes (p,key,val / d,key)
 		at := atoi(f[2])
 		want := r.ref.sortedKeys()
